@@ -6,12 +6,14 @@ judges the implementation directly."""
 import common
 
 PID = "C05"
-GEN = ["Utf8Tables"]
+GEN = ["Utf8Tables", "ByteTables", "Recognizer"]
 LEAN_MODULE = "XV.Props.C05"
 THEOREMS = ["XV.Props.C05." + t for t in (
     "utf8_tables_spec", "table37_iff_table36", "utf8_step_complete", "utf8_step_sound",
     "utf8_decode_sound", "utf8_decode_complete", "utf8_exc_only_illformed", "utf8_encode_exact",
-    "utf8_roundtrip")]
+    "utf8_roundtrip", "bytetables_wellformed", "xlatOneTo_is_lookup", "bytetables_roundtrip", "bytetables_to_consistent",
+    "utf16_roundtrip", "ucs4_decode_exact", "ucs4_encode_exact", "ucs4_rejects_out_of_range", "latin1_roundtrip",
+    "probe_prefixes_are_encodings", "probe_eq_appendixF_decl", "probe_eq_appendixF_bom")]
 RULE = ("byte strings: all of length 1-2, 3/4-byte forms over boundary bytes, random scalar strings with "
         "ill-formed splices, each with several maxChars; UTF-16 strings: boundary + random (all scalars in "
         "thorough); a case is non-trivial when it contains a byte >= 0x80 or a unit >= 0x80; distinct by text")
@@ -123,18 +125,19 @@ def parse_ok(line):
         return f
     return None
 
-def judge_decode(byte_lists):
+def judge_decode(byte_lists, maxchars=None):
     """Drive the real transcoder as a stream (repeated calls on the remaining bytes, ample room) and
     compare the final outcome with the executable Spec.  Returns list of (bytes, what) contradictions."""
     if not byte_lists:
         return []
     spec = common.run_driver(["utf8spec"], input=("\n".join("S " + hx(b) for b in byte_lists) + "\n").encode()).decode().split("\n")
-    state = [{"bs": b, "pos": 0, "chars": [], "end": None} for b in byte_lists]
-    for _round in range(80):
+    mcs = maxchars or [4096] * len(byte_lists)
+    state = [{"bs": b, "pos": 0, "chars": [], "end": None, "mc": max(2, mc)} for b, mc in zip(byte_lists, mcs)]
+    for _round in range(400):
         todo = [s for s in state if s["end"] is None]
         if not todo:
             break
-        lines = ["F 4096 " + hx(s["bs"][s["pos"]:]) for s in todo]
+        lines = ["F %d " % s["mc"] + hx(s["bs"][s["pos"]:]) for s in todo]
         p = common.run_harness("hx_utf8", input=("\n".join(lines) + "\n").encode())
         outs = p.stdout.decode().split("\n")
         for s, o in zip(todo, outs):
@@ -187,8 +190,8 @@ def classify(bs, what):
         return "utf8-decode:wellformed-not-decoded"
     return "utf8-decode:truncated-consumed"
 
-def check_decode_against_spec(ctx, byte_lists, origin):
-    bad = judge_decode(byte_lists)
+def check_decode_against_spec(ctx, byte_lists, origin, maxchars=None):
+    bad = judge_decode(byte_lists, maxchars)
     by_key = {}
     for bs, what in bad:
         k = classify(bs, what)
@@ -201,6 +204,10 @@ def check_decode_against_spec(ctx, byte_lists, origin):
     return len(bad)
 
 def correspondence(ctx):
+    utf8_correspondence(ctx)
+    codec_correspondence(ctx)
+
+def utf8_correspondence(ctx):
     F, T = gen_cases(ctx)
     lines = F + T
     m, i, err = common.run_pair("utf8", "hx_utf8", lines)
@@ -221,8 +228,9 @@ def correspondence(ctx):
                                "replay": {"stderr": err[-2000:]}})
     if d:
         # judge the disagreeing decode inputs by the Spec
-        fb = [[int(x, 16) for x in l.split()[2].split(".")] if l.split()[2] != "-" else [] for _, l, _, _ in d if l.startswith("F")]
-        n = check_decode_against_spec(ctx, fb[:400], "correspondence") if fb else 0
+        fl = [l for _, l, _, _ in d if l.startswith("F")][:400]
+        fb = [[int(x, 16) for x in l.split()[2].split(".")] if l.split()[2] != "-" else [] for l in fl]
+        n = check_decode_against_spec(ctx, fb, "correspondence", [int(l.split()[1]) for l in fl]) if fb else 0
         # encode disagreements on well-formed UTF-16 are judged by the model's own theorem (encode = Spec)
         for k, l, mo, io in d:
             if l.startswith("T"):
@@ -238,6 +246,151 @@ def correspondence(ctx):
             ctx.violations.append({"key": "corr:utf8", "concrete": False,
                 "what": "correspondence utf8 model vs XMLUTF8Transcoder no longer checks (%d cases), first: %s model=%s impl=%s" % (len(d), l, mo, io),
                 "replay": {"correspondence": "utf8", "case": l, "model": mo, "impl": io}})
+
+# ------------------------------------------------------------------ other intrinsic encodings + detection
+FIXED = ["ISO-8859-1", "US-ASCII", "UTF-16LE", "UTF-16BE", "UCS-4LE", "UCS-4BE"]
+TABLES = ["windows-1252", "IBM037", "IBM1047", "IBM1140"]
+
+def spec_encode(enc, cps):
+    """Spec: bytes of a scalar string in a fixed-width encoding, or None if unrepresentable"""
+    out = []
+    for c in cps:
+        if enc == "ISO-8859-1":
+            if c > 255: return None
+            out.append(c)
+        elif enc == "US-ASCII":
+            if c > 127: return None
+            out.append(c)
+        elif enc.startswith("UTF-16"):
+            for u in utf16(c):
+                out += [u >> 8, u & 255] if enc.endswith("BE") else [u & 255, u >> 8]
+        else:
+            b = [(c >> 24) & 255, (c >> 16) & 255, (c >> 8) & 255, c & 255]
+            out += b if enc.endswith("BE") else b[::-1]
+    return out
+
+def load_gen_tables():
+    """from/to tables as regenerated by the translator (the Spec side of the table encodings is the table itself)"""
+    import re, os
+    txt = open(os.path.join(common.GEN, "ByteTables.lean")).read()
+    res = {}
+    for enc, nm in zip(TABLES, ["Win1252", "Ebcdic037", "Ibm1047", "Ibm1140"]):
+        fr = [int(x) for x in re.search(r"def from%s : List Nat := \[(.*?)\]" % nm, txt, re.S).group(1).replace("\n", " ").split(",")]
+        to = [(int(a), int(b)) for a, b in re.findall(r"\((\d+), (\d+)\)", re.search(r"def to%s : List \(Nat × Nat\) := \[(.*?)\]\n" % nm, txt, re.S).group(1))]
+        res[enc] = (fr, dict(to))
+    return res
+
+def codec_correspondence(ctx):
+    r = ctx.rng
+    lines = []; meta = []
+    tabs = load_gen_tables()
+    # every byte / every unit of the table encodings, every byte pair / quadruple class of the fixed ones
+    for enc in TABLES:
+        for b0 in range(0, 256, 16):
+            lines.append("GF %s 64 %s" % (enc, hx(list(range(b0, b0 + 16))))); meta.append(("tf", enc, list(range(b0, b0 + 16))))
+        units = range(0, 65536) if ctx.thorough() else sorted(set(list(tabs[enc][1].keys()) + [r.below(65536) for _ in range(600)] + list(range(0, 0x180))))
+        for u in units:
+            lines.append("GT %s 4 1 %x" % (enc, u)); meta.append(("tt", enc, u))
+            if u % 7 == 0:
+                lines.append("GC %s %x" % (enc, u)); meta.append(("tc", enc, u))
+    n = 30000 if ctx.thorough() else 3000
+    for _ in range(n):
+        enc = r.choice(FIXED)
+        cps = [rand_scalar(r) for _ in range(r.choice([1, 2, 3, 8]))]
+        if enc in ("ISO-8859-1", "US-ASCII"):
+            cps = [c % (300 if enc == "ISO-8859-1" else 160) for c in cps]
+        us = [u for c in cps for u in utf16(c)]
+        room = r.choice([1, 2, 3, 4, 5, 7, 8, 64])
+        lines.append("GT %s %d %d %s" % (enc, room, r.below(2), hx(us))); meta.append(("ft", enc, cps, room))
+        bs = spec_encode(enc, cps)
+        if bs is not None:
+            k = r.below(6)
+            if k == 0 and bs: bs = bs[:-1]
+            if k == 1 and enc.startswith("UCS") and len(bs) >= 4:
+                v = r.choice([0x110000, 0xFFFFFFFF, 0x7FFFFFFF, 0xD800, 0xDFFF, 0x10FFFF, 0x110000 + r.below(1 << 20)])
+                q = [(v >> 24) & 255, (v >> 16) & 255, (v >> 8) & 255, v & 255]
+                bs = bs[:-4] + (q if enc.endswith("BE") else q[::-1])
+                cps = cps[:-1] + [v]
+            mc = r.choice([1, 2, 3, 4, 64])
+            lines.append("GF %s %d %s" % (enc, mc, hx(bs))); meta.append(("ff", enc, cps, mc, k))
+    # detection: every family's declaration opener / BOM followed by arbitrary bytes, plus short and random buffers
+    decl = [0x3C, 0x3F, 0x78, 0x6D, 0x6C, 0x20]
+    fam = {"UTF_8": decl, "UTF_16B": spec_encode("UTF-16BE", decl), "UTF_16L": spec_encode("UTF-16LE", decl),
+           "UCS_4B": spec_encode("UCS-4BE", decl), "UCS_4L": spec_encode("UCS-4LE", decl),
+           "EBCDIC": [tabs["IBM037"][1][c] for c in decl]}
+    boms = {"UCS_4B": [0, 0, 0xFE, 0xFF], "UCS_4L": [0xFF, 0xFE, 0, 0], "UTF_16B": [0xFE, 0xFF], "UTF_16L": [0xFF, 0xFE], "UTF_8": [0xEF, 0xBB, 0xBF]}
+    for _ in range(4000 if ctx.thorough() else 600):
+        k = r.below(4)
+        if k == 0:
+            f = r.choice(sorted(fam)); tail = [r.below(256) for _ in range(1 + r.below(6))]
+            lines.append("P " + hx(fam[f] + tail)); meta.append(("pd", f))
+        elif k == 1:
+            f = r.choice(sorted(boms)); tail = [1 + r.below(255), r.below(256), r.below(256), r.below(256)]
+            lines.append("P " + hx(boms[f] + tail)); meta.append(("pb", f))
+        elif k == 2:
+            f = r.choice(sorted(fam)); cut = r.below(len(fam[f]) + 1)
+            lines.append("P " + hx(fam[f][:cut])); meta.append(("px", None))
+        else:
+            lines.append("P " + hx([r.choice([0, 0x3C, 0x3F, 0xFE, 0xFF, 0xEF, 0xBB, 0xBF, 0x4C, 0x6F, 0x78, r.below(256)]) for _ in range(r.below(9))])); meta.append(("px", None))
+    m, i, err = common.run_pair("codec", "hx_utf8", lines)
+    nbad = 0; first = None; cats = {}
+    for k, (l, mo, io, me) in enumerate(zip(lines, m, i, meta)):
+        spec_bad = None
+        kind = me[0]
+        if kind == "tf":
+            want = [tabs[me[1]][0][b] for b in me[2]]
+            if io != "ok %s %s %d" % (hx(want), hx([1] * 16), 16): spec_bad = "table decoding of bytes differs from the generated from-table"
+        elif kind == "tt":
+            b = tabs[me[1]][1].get(me[2], 0)
+            want = "ok %x 1" % b if b else "exc Trans_Unrepresentable"
+            if io != want: spec_bad = "table encoding of U+%04X: expected %s" % (me[2], want)
+        elif kind == "ft":
+            enc, cps, room = me[1], me[2], me[3]
+            full = spec_encode(enc, cps)
+            if io.startswith("ok"):
+                got = [] if io.split()[1] == "-" else [int(x, 16) for x in io.split()[1].split(".")]
+                ref = spec_encode(enc, cps) if full is not None else None
+                if ref is not None and got != ref[:len(got)]:
+                    spec_bad = "encoded bytes are not a prefix of the %s form %s" % (enc, hx(ref))
+                if ref is not None and len(got) > room:
+                    spec_bad = "wrote past maxBytes"
+            elif full is not None:
+                spec_bad = "representable string rejected"
+        elif kind == "ff":
+            enc, cps, mc, k = me[1], me[2], me[3], me[4]
+            if k == 1 and (cps[-1] > 0x10FFFF):
+                # an out-of-range value must not be decoded: either an exception, or it is left unconsumed
+                if io.startswith("ok"):
+                    eaten = int(io.split()[3])
+                    if eaten >= 4 * len(cps):
+                        spec_bad = "UCS-4 value above U+10FFFF was decoded"
+            elif k not in (0, 1) and io.startswith("ok"):
+                want = [u for c in cps for u in utf16(c)]
+                got = [] if io.split()[1] == "-" else [int(x, 16) for x in io.split()[1].split(".")]
+                if got != want[:len(got)] or (mc >= len(want) and got != want):
+                    spec_bad = "decoded units %s differ from %s" % (hx(got), hx(want))
+            elif k not in (0, 1):
+                spec_bad = "legal %s sequence rejected" % enc
+        elif kind in ("pd", "pb"):
+            if io != me[1]: spec_bad = "encoding probe says %s, Appendix F says %s" % (io, me[1])
+        if spec_bad:
+            nbad += 1
+            key = {"tf": "codec-table-decode", "tt": "codec-table-encode", "ft": "codec-fixed-encode", "ff": "codec-fixed-decode",
+                   "pd": "encoding-probe", "pb": "encoding-probe"}[kind]
+            if key not in cats or len(l) < len(cats[key][0]):
+                cats[key] = (l, io, spec_bad)
+        if mo != io and first is None:
+            first = (l, mo, io)
+    for key, (l, io, what) in cats.items():
+        ctx.violations.append({"key": key, "concrete": True, "what": "%s -> %s: %s" % (l, io, what), "replay": {"op": l, "impl": io}})
+    if first and not cats:
+        ctx.violations.append({"key": "corr:codec", "concrete": False,
+            "what": "correspondence codec/probe model vs implementation no longer checks: %s model=%s impl=%s" % first,
+            "replay": {"correspondence": "codec", "case": first[0], "model": first[1], "impl": first[2]}})
+    ctx.stats["codec_cases"] = len(lines); ctx.stats["codec_spec_violations"] = nbad
+    ctx.stats["evaluations"] = ctx.stats.get("evaluations", 0) + len(lines)
+    ctx.stats["distinct_nontrivial"] = ctx.stats.get("distinct_nontrivial", 0) + len(set(lines))
+    ctx.samples.append({"case": lines[len(lines) // 2], "model": m[len(lines) // 2], "impl": i[len(lines) // 2]})
 
 def is_wf16(us):
     k = 0
@@ -266,7 +419,9 @@ def search(ctx, broken):
         t = l.split()[2]
         bl.append([] if t == "-" else [int(x, 16) for x in t.split(".")])
     before = len(ctx.violations)
-    check_decode_against_spec(ctx, bl, "search after broken %s %s" % (broken["kind"], broken["name"]))
+    check_decode_against_spec(ctx, bl, "search after broken %s %s" % (broken["kind"], broken["name"]), [int(l.split()[1]) for l in F])
+    if len(ctx.violations) == before:
+        codec_correspondence(ctx)
     if len(ctx.violations) > before:
         return ctx.violations.pop()
     return None
@@ -274,6 +429,9 @@ def search(ctx, broken):
 def replay(ctx, path):
     import json
     r = json.load(open(path))["replay"]
+    if "op" in r and isinstance(r["op"], str) and r["op"].split()[0] in ("GF", "GT", "GC", "P"):
+        m, i, _ = common.run_pair("codec", "hx_utf8", [r["op"]])
+        print("case :", r["op"]); print("model:", m[0]); print("impl :", i[0]); return 0
     if "bytes" in r:
         line = "F 4096 " + r["bytes"]
     elif "op" in r and isinstance(r["op"], str) and r["op"][:1] in "FT":
